@@ -83,7 +83,7 @@ def obs_now_default(case):
     finally:
         qa.CTP.datetime = orig
     val = {"k": "F"} if r is None or r.resolution is None else qa.val_json(r.resolution)
-    return {"fam": "day", "D": case["D"], "ts": qa.ts_json(ts), "val": val}
+    return {"fam": "day", "D": case["D"], "D2": e2e.NODAY, "ts": qa.ts_json(ts), "val": val}
 
 
 STAGES = {
